@@ -278,12 +278,12 @@ theorem stepRun2_K {a : ACfg} {s : St} (ib : InvB2 a s) (is : InvS a s) (t : ATi
     · rename_i u hp
       rw [hp] at hty
       obtain rfl := allowed2_W hty (Or.inl rfl)
-      have ib1 := InvB2.of_core (s' := { s0 with vres2 := none, rcv2Busy := false, gone2 := s0.gone2 ++ s0.vres2.toList.map (fun v => (v, false)) }) (s := s0) rfl ib0
+      have ib1 := InvB2.of_core (s' := { s0 with vres2 := none, rcv2Busy := false, q2 := s0.vres2.toList ++ s0.q2 }) (s := s0) rfl ib0
       split
-      · refine ⟨InvB2.of_core (s := ({ s0 with vres2 := none, rcv2Busy := false, gone2 := s0.gone2 ++ s0.vres2.toList.map (fun v => (v, false)) } : St).emit2 (.ret u .eoq)) rfl (ib1.emit2 rfl), ?_⟩
+      · refine ⟨InvB2.of_core (s := ({ s0 with vres2 := none, rcv2Busy := false, q2 := s0.vres2.toList ++ s0.q2 } : St).emit2 (.ret u .eoq)) rfl (ib1.emit2 rfl), ?_⟩
         obtain ⟨nb, we, wv, ty, wq, d2, cc, hc', can, v2, dn, vn, da, vs⟩ := is0
         ksolve
-      · refine ⟨InvB2.of_core (s := ({ s0 with vres2 := none, rcv2Busy := false, gone2 := s0.gone2 ++ s0.vres2.toList.map (fun v => (v, false)) } : St).emit2 (.ret u .cancelled)) rfl (ib1.emit2 rfl), ?_⟩
+      · refine ⟨InvB2.of_core (s := ({ s0 with vres2 := none, rcv2Busy := false, q2 := s0.vres2.toList ++ s0.q2 } : St).emit2 (.ret u .cancelled)) rfl (ib1.emit2 rfl), ?_⟩
         obtain ⟨nb, we, wv, ty, wq, d2, cc, hc', can, v2, dn, vn, da, vs⟩ := is0
         ksolve
     · rename_i u hp
